@@ -12,6 +12,7 @@ for c in "$@"; do
   else RES="$RES $c:silent"; fi
 done
 git -C /repo checkout -- .
+git -C /verif checkout -- coq/ApiTable.v 2>/dev/null
 git -C /repo status --short | head -3
 echo "RESULT $RES"
 echo "$RES" >> "$D/checks.txt"
